@@ -120,11 +120,24 @@ class Run:
 
     # ------------------------------------------------------------------ shards
     def dump(self):
-        return dict(evaluations=self.evaluations, distinct=sorted(self.distinct), counters=dict(self.counters),
+        try:
+            from vlib import reach
+            self.merge_reach(reach.result())
+        except Exception:
+            pass
+        return dict(reach={f: sorted(v) for f, v in getattr(self, "reach", {}).items()}, evaluations=self.evaluations, distinct=sorted(self.distinct), counters=dict(self.counters),
                     samples=self.samples, violations=self.violations, inconclusive=self.inconclusive,
                     notes=self.notes, extra=self.extra)
 
+    def merge_reach(self, r):
+        cur = getattr(self, "reach", None)
+        if cur is None:
+            cur = self.reach = {}
+        for f, lines in (r or {}).items():
+            cur.setdefault(f, set()).update(lines)
+
     def merge(self, d):
+        self.merge_reach(d.get("reach"))
         self.evaluations += d["evaluations"]
         self.distinct.update(d["distinct"])
         self.counters.update(d["counters"])
@@ -258,6 +271,12 @@ class Run:
                    inconclusive_reasons=self.inconclusive, not_exercised_on_this_host=self.notes)
         if self.exhaustive is not None:
             cov["exhaustive"] = self.exhaustive
+        try:
+            from vlib import reach
+            self.merge_reach(reach.result())
+            cov["anchored_code_reach"] = reach.summarize(self.pid, REPO, {f: sorted(v) for f, v in getattr(self, "reach", {}).items()})
+        except Exception as e:
+            cov["anchored_code_reach"] = dict(error=str(e))
         cov.update(jsonable(self.extra))
         ev = dict(property_id=self.pid, tier=self.tier, seed=self.seed, level=self.level, coverage=cov,
                   assumptions=self.assumptions, wall_s=round(wall, 2), violations=len(new))
@@ -309,6 +328,11 @@ def main(pid, level, rule, body):
             if not os.path.realpath(m.__file__).startswith(os.path.realpath(REPO) + os.sep):
                 run.set_inconclusive(f"{m.__name__} was imported from {m.__file__}, not from {REPO}")
         run.extra["repo"] = REPO
+        try:
+            from vlib import reach
+            reach.start(pid, REPO)
+        except Exception:
+            pass
         body(run)
     except SystemExit:
         raise
